@@ -227,4 +227,174 @@ example : (cellRun (validCells [3]) .euler (consRate .polar [3] (1 : Rat) [1 / 2
 
 end radialruns
 
+/-! ## boundary-flux identities of the divergence (arbitrary ghost cells, every variant of the difference) -/
+section flux
+variable {K : Type} [Field K] [CharZero K]
+
+/-- what a first difference along a line of cells sums to: face values only (central: mean of the two cells adjacent
+to a face; forward / backward: the cell behind / in front of the face) -/
+def faceFlux (mth : Method) (f : Int → K) (n : Nat) : K :=
+  match mth with
+  | .central => (f ((n : Int) + 1) + f n) / 2 - (f 1 + f 0) / 2
+  | .forward => f ((n : Int) + 1) - f 1
+  | .backward => f n - f 0
+
+theorem d1_fun_sum_flux (mth : Method) (dx : K) (hdx : dx ≠ 0) (f : Int → K) (n : Nat) :
+    sumTo (fun i => dx * d1Fun mth dx f (i : Int)) n = faceFlux mth f n := by
+  rw [d1_fun_sum mth dx hdx]; cases mth <;> rfl
+
+/-- conserving ghost cells along the line: no net flux -/
+theorem faceFlux_zero (mth : Method) (f : Int → K) (n : Nat) (h : DivAxisOK mth f n) : faceFlux mth f n = 0 := by
+  rcases h with ⟨hm, h0, h1⟩ | ⟨h0, h1⟩
+  · subst hm; simp only [faceFlux]; rw [h0, h1]; ring
+  · cases mth <;> simp only [faceFlux, h0, h1] <;> ring
+
+/-- 2-d Cartesian divergence, any ghost cells: the volume-weighted sum is the flux through the four faces -/
+theorem cart2_divergence_sum (mth : Method) (dx dy : K) (hdx : dx ≠ 0) (hdy : dy ≠ 0) (a : Arr K) (n m : Nat) :
+    intCart2Divergence mth dx dy a n m =
+      sumTo (fun j => dy * faceFlux mth (fun i => a [0, i, (j : Int)]) n) m
+      + sumTo (fun i => dx * faceFlux mth (fun j => a [1, (i : Int), j]) m) n := by
+  unfold intCart2Divergence
+  have split : ∀ i j : Nat, dx * dy * cartDivergence mth [dx, dy] a [] [(i:Int), (j:Int)] =
+      dy * (dx * d1Fun mth dx (fun i' => a [0, i', (j:Int)]) (i:Int))
+      + dx * (dy * d1Fun mth dy (fun j' => a [1, (i:Int), j']) (j:Int)) := by
+    intro i j; rw [cartDivergence_2d]; ring
+  simp only [split, sumTo_add]
+  congr 1
+  · rw [sumTo_comm]
+    apply sumTo_congr
+    intro j _ _
+    rw [sumTo_mul_left, d1_fun_sum_flux mth dx hdx (fun i => a [0, i, (j:Int)]) n]
+  · apply sumTo_congr
+    intro i _ _
+    rw [sumTo_mul_left, d1_fun_sum_flux mth dy hdy (fun j => a [1, (i:Int), j]) m]
+
+/-- 3-d Cartesian divergence, any ghost cells: the flux through the six faces -/
+theorem cart3_divergence_sum (mth : Method) (dx dy dz : K) (hdx : dx ≠ 0) (hdy : dy ≠ 0) (hdz : dz ≠ 0)
+    (a : Arr K) (n m l : Nat) :
+    intCart3Divergence mth dx dy dz a n m l =
+      sumTo (fun j => sumTo (fun k => dy * dz * faceFlux mth (fun i => a [0, i, (j : Int), (k : Int)]) n) l) m
+      + sumTo (fun i => sumTo (fun k => dx * dz * faceFlux mth (fun j => a [1, (i : Int), j, (k : Int)]) m) l) n
+      + sumTo (fun i => sumTo (fun j => dx * dy * faceFlux mth (fun k => a [2, (i : Int), (j : Int), k]) l) m) n := by
+  unfold intCart3Divergence
+  have split : ∀ i j k : Nat, dx * dy * dz * cartDivergence mth [dx, dy, dz] a [] [(i:Int), (j:Int), (k:Int)] =
+      dy * dz * (dx * d1Fun mth dx (fun i' => a [0, i', (j:Int), (k:Int)]) (i:Int))
+      + dx * dz * (dy * d1Fun mth dy (fun j' => a [1, (i:Int), j', (k:Int)]) (j:Int))
+      + dx * dy * (dz * d1Fun mth dz (fun k' => a [2, (i:Int), (j:Int), k']) (k:Int)) := by
+    intro i j k; rw [cartDivergence_3d]; ring
+  simp only [split, sumTo_add]
+  congr 1
+  · congr 1
+    · rw [sumTo_comm]
+      apply sumTo_congr
+      intro j _ _
+      rw [sumTo_comm]
+      apply sumTo_congr
+      intro k _ _
+      rw [sumTo_mul_left, d1_fun_sum_flux mth dx hdx (fun i => a [0, i, (j:Int), (k:Int)]) n]
+    · apply sumTo_congr
+      intro i _ _
+      rw [sumTo_comm]
+      apply sumTo_congr
+      intro k _ _
+      rw [sumTo_mul_left, d1_fun_sum_flux mth dy hdy (fun j => a [1, (i:Int), j, (k:Int)]) m]
+  · apply sumTo_congr
+    intro i _ _
+    apply sumTo_congr
+    intro j _ _
+    rw [sumTo_mul_left, d1_fun_sum_flux mth dz hdz (fun k => a [2, (i:Int), (j:Int), k]) l]
+
+/-! ### cylindrical divergence: `v_r / r + ∂_r v_r + ∂_z v_z` with central differences is not in flux form -/
+
+/-- any ghost cells: the radial part telescopes to `r_n v_{n+1} + r_{n+1} v_n - r_0 v_1 - r_1 v_0` (not a face value of
+`r v_r`), the axial part to the face flux weighted with the ring areas -/
+theorem cyl_divergence_sum (r : Int → K) (dr dz : K) (hdr : dr ≠ 0) (hdz : dz ≠ 0) (a : Arr K) (n m : Nat)
+    (hlat : ∀ i : Int, r (i + 1) = r i + dr) (hr : ∀ i : Nat, 1 ≤ i → r i ≠ 0) :
+    intCylDivergence r dr dz a n m =
+      sumTo (fun j => dz * (r n * a [0, (n : Int) + 1, (j : Int)] + r ((n : Int) + 1) * a [0, (n : Int), (j : Int)]
+                            - (r 0 * a [0, 1, (j : Int)] + r 1 * a [0, 0, (j : Int)]))) m
+      + sumTo (fun i => 2 * dr * r (i : Int) * faceFlux .central (fun j => a [1, (i : Int), j]) m) n := by
+  unfold intCylDivergence
+  have split : ∀ i j : Nat, 1 ≤ i → volCyl r dr dz (i:Int) * cylDivergence r dr dz a (i:Int) (j:Int) =
+      dz * ((r (i:Int) * a [0, (i:Int) + 1, (j:Int)] + r ((i:Int) + 1) * a [0, (i:Int), (j:Int)])
+            - (r ((i:Int) - 1) * a [0, (i:Int), (j:Int)] + r (i:Int) * a [0, (i:Int) - 1, (j:Int)]))
+      + 2 * dr * r (i:Int) * (dz * d1Fun .central dz (fun j' => a [1, (i:Int), j']) (j:Int)) := by
+    intro i j hi
+    have h1 := hlat (i:Int)
+    have h2 : r ((i:Int) - 1) = r (i:Int) - dr := by
+      have := hlat ((i:Int) - 1)
+      rw [sub_add_cancel] at this
+      rw [this]; ring
+    have hri := hr i hi
+    unfold volCyl cylDivergence d1Fun
+    rw [h1, h2]
+    push_cast
+    field_simp
+    ring
+  rw [sumTo_congr _ (fun i => sumTo (fun j =>
+      dz * ((r (i:Int) * a [0, (i:Int) + 1, (j:Int)] + r ((i:Int) + 1) * a [0, (i:Int), (j:Int)])
+            - (r ((i:Int) - 1) * a [0, (i:Int), (j:Int)] + r (i:Int) * a [0, (i:Int) - 1, (j:Int)]))
+      + 2 * dr * r (i:Int) * (dz * d1Fun .central dz (fun j' => a [1, (i:Int), j']) (j:Int))) m) n
+    (fun i hi _ => sumTo_congr _ _ m (fun j _ _ => split i j hi))]
+  simp only [sumTo_add]
+  congr 1
+  · rw [sumTo_comm]
+    apply sumTo_congr
+    intro j _ _
+    rw [sumTo_mul_left]
+    congr 1
+    have := sumTo_telescope
+      (fun i : Nat => (r (i:Int) * a [0, (i:Int) + 1, (j:Int)] + r ((i:Int) + 1) * a [0, (i:Int), (j:Int)])
+            - (r ((i:Int) - 1) * a [0, (i:Int), (j:Int)] + r (i:Int) * a [0, (i:Int) - 1, (j:Int)]))
+      (fun i : Nat => r (i:Int) * a [0, (i:Int) + 1, (j:Int)] + r ((i:Int) + 1) * a [0, (i:Int), (j:Int)])
+      (by
+        intro i
+        push_cast
+        have e1 : ((i:Int) + 1 - 1) = (i:Int) := by ring
+        rw [e1]) n
+    rw [this]
+    simp
+  · apply sumTo_congr
+    intro i _ _
+    rw [sumTo_mul_left, d1_fun_sum_flux .central dz hdz (fun j => a [1, (i:Int), j]) m]
+
+/-- vanishing normal component on the inner and outer face, conserving `z` axis (walls or periodic): what is left is
+`dr dz Σ_j (v_r[1, j] + v_r[n, j])` - the exact defect of the cylindrical divergence (the property does not claim it:
+"Cartesian and (conservative) spherical grids") -/
+theorem cyl_divergence_defect (r : Int → K) (dr dz : K) (hdr : dr ≠ 0) (hdz : dz ≠ 0) (a : Arr K) (n m : Nat)
+    (hlat : ∀ i : Int, r (i + 1) = r i + dr) (hr : ∀ i : Nat, 1 ≤ i → r i ≠ 0)
+    (hin : ∀ j : Nat, 1 ≤ j → j ≤ m → a [0, 0, (j : Int)] = -a [0, 1, (j : Int)])
+    (hout : ∀ j : Nat, 1 ≤ j → j ≤ m → a [0, (n : Int) + 1, (j : Int)] = -a [0, (n : Int), (j : Int)])
+    (hz : ∀ i : Nat, 1 ≤ i → i ≤ n → DivAxisOK .central (fun j => a [1, (i : Int), j]) m) :
+    intCylDivergence r dr dz a n m = dr * dz * sumTo (fun j => a [0, 1, (j : Int)] + a [0, (n : Int), (j : Int)]) m := by
+  rw [cyl_divergence_sum r dr dz hdr hdz a n m hlat hr]
+  have h2 : sumTo (fun i : Nat => 2 * dr * r (i:Int) * faceFlux .central (fun j => a [1, (i:Int), j]) m) n = 0 := by
+    apply sumTo_eq_zero
+    intro i h1 h2
+    rw [faceFlux_zero _ _ _ (hz i h1 h2)]; simp
+  rw [h2, add_zero, ← sumTo_mul_left]
+  apply sumTo_congr
+  intro j h1 h2
+  rw [hin j h1 h2, hout j h1 h2, hlat (n:Int)]
+  have := hlat 0
+  rw [zero_add] at this
+  rw [this]; ring
+
+/-- the hypotheses of `cyl_divergence_defect` with a non-vanishing defect: the cylindrical divergence does not conserve
+under a vanishing normal component (full cylinder, 2 × 1 cells) -/
+theorem cyl_divergence_not_conservative :
+    ∃ (a : Arr Rat), a [0, 0, 1] = -a [0, 1, 1] ∧ a [0, 3, 1] = -a [0, 2, 1] ∧ a [1, 1, 0] = -a [1, 1, 1] ∧
+      a [1, 1, 2] = -a [1, 1, 1] ∧ a [1, 2, 0] = -a [1, 2, 1] ∧ a [1, 2, 2] = -a [1, 2, 1] ∧
+      intCylDivergence (centre (0:Rat) 1) 1 1 a 2 1 ≠ 0 := by
+  refine ⟨fun idx => if idx = [0, 1, 1] then 1 else if idx = [0, 0, 1] then -1 else if idx = [0, 2, 1] then 3
+    else if idx = [0, 3, 1] then -3 else 0, by decide, by decide, by decide, by decide, by decide, by decide, ?_⟩
+  decide +kernel
+
+/-- a concrete non-trivial instance of the hypotheses of `cyl_divergence_defect` (hole of radius 1, `dr = 1/2`) -/
+example : (∀ i : Int, centre (1:Rat) (1/2) (i + 1) = centre (1:Rat) (1/2) i + 1/2) ∧
+    (∀ i : Nat, 1 ≤ i → centre (1:Rat) (1/2) (i:Int) ≠ 0) :=
+  ⟨centre_lattice 1 (1/2), fun i hi => centre_ne_zero 1 (1/2) (by norm_num) (by norm_num) i hi⟩
+
+end flux
+
 end PdeVerif.Conserve
